@@ -34,6 +34,8 @@ def main(tier):
         add(4, 2, taxo.forests(4), split=True, timeout=900)
         add(5, 2, [[-1, 0, 1, 2, 3], [-1, 0, 1, 1, 3], [-1, 0, 0, 1, 2], [-1, -1, 0, 1, 3]], split=True, timeout=1800)
         add(5, 1, taxo.forests(5), split=False, timeout=900)
+    jobs.append(dict(path=gen_c03.make(2, 1), fname='_c03_floats', params={'shape': [-1, 0]}, timeout=200, label='float boundary: distances within one ulp of a threshold (binary64 and float32)',
+                     bounds={'thresholds': 'pool 0.1 / 0.3 / 0.5 / 0.7 on a two-taxon lineage', 'distances': 'the threshold, its float32 rounding, and one step above / below each, as float64 and float32'}))
     jobs.sort(key=lambda j: -j['timeout'])
     xprop.run_jobs(run, jobs, rung=tier, key_of=key_of)
     xprop.note_sources(run, ['src/gambit/classify.py', 'src/gambit/query.py', 'src/gambit/db/models.py'])
@@ -42,7 +44,7 @@ def main(tier):
                   'values': 'thresholds absent or present; thresholds and distances range over every order type (ties included)'}
     run.stubs = ['numpy.argmin -> first index of the minimum (documented contract); numpy.argsort -> stable order (unused: report_closest=0)',
                  'ReferenceDatabase -> object with the genome list']
-    run.outside = ['forests larger than the bounds', 'float32-vs-float64 comparison of a stored distance with a threshold (values are modelled by their order type)',
+    run.outside = ['forests larger than the bounds', 'float comparisons away from the pooled boundary values (elsewhere values are modelled by their order type)',
                    'more than 3 genomes (in non-strict mode only the closest genome and a tie partner matter)']
     run.assumptions = ['classify/matching_taxon/next_taxon use thresholds and distances only through order comparisons, so integer order types are exhaustive',
                        'CrossHair "Confirmed over all paths" = every feasible path of the harness explored']
